@@ -103,6 +103,7 @@ class TU:
     def __init__(self, path, flags, cxx=False):
         self.path, self.flags = path, flags
         self.userflags = []
+        self.cxx = cxx
         cmd = [CLANG + ("" if not cxx else ""), "-fsyntax-only", "-Xclang", "-ast-dump=json"] + flags + [path]
         if cxx:
             cmd = ["clang++-14" if CLANG == "clang-14" else CLANG, "-x", "c++", "-fsyntax-only", "-Xclang", "-ast-dump=json"] + flags + [path]
@@ -132,6 +133,20 @@ class TU:
                 self.globals[n["name"]] = n
             elif k in ("LinkageSpecDecl", "NamespaceDecl"):
                 self._index(n)
+            elif k == "CXXRecordDecl":
+                self.classes = getattr(self, "classes", {})
+                if n.get("name"): self.classes[n["id"]] = n["name"]
+                if n.get("completeDefinition") or any(c.get("kind") == "FieldDecl" for c in n.get("inner", [])):
+                    self.records[n["id"]] = n
+                    if n.get("name"): self.recnames[n["name"]] = n
+                # methods defined inside the class body
+                for c in n.get("inner", []):
+                    if c.get("kind") == "CXXMethodDecl" and any(x.get("kind") == "CompoundStmt" for x in c.get("inner", [])):
+                        self.funcs[n.get("name", "?") + "::" + c["name"]] = c
+            elif k == "CXXMethodDecl":
+                cls = getattr(self, "classes", {}).get(n.get("parentDeclContextId"), "?")
+                if any(c.get("kind") == "CompoundStmt" for c in n.get("inner", [])):
+                    self.funcs[cls + "::" + n["name"]] = n
 
     # ---- type resolution from qualType strings
     def rec_type(self, rd):
@@ -452,6 +467,12 @@ class Exec:
             return ("mem", base.ptr[0], base.ptr[1] + i * ct.size(), ct)
         if k == "MemberExpr":
             b = n["inner"][0]
+            bb = b
+            while bb.get("kind") in ("ImplicitCastExpr", "ParenExpr") and bb.get("inner"): bb = bb["inner"][0]
+            if bb.get("kind") == "CXXThisExpr":
+                key = "this." + n["name"]
+                if key not in env: raise TranslateError("member %s of `this` is not described in the manifest" % n["name"])
+                return ("var", key)
             if n.get("isArrow"):
                 pv = self.rvalue(b, env)
                 obj, off = pv.ptr
@@ -650,7 +671,7 @@ class Exec:
             ct = self.tu.ctype(n["type"])
             if op == "~": return Val(ct, mk("not", [v.e], v.e.w))
             if op == "-": return Val(ct, mk("neg", [v.e], v.e.w))
-            if op == "+": return v
+            if op in ("+", "__extension__"): return v
             if op == "!":
                 if v.ptr is not None:
                     return Val(ct, const(1 if v.ptr[0] is None else 0, 32))
@@ -712,6 +733,12 @@ class Exec:
             return self.load(self.lvalue(n, env), env)
         if k == "CallExpr":
             return self.call(n, env)
+        if k == "StmtExpr":
+            # GNU statement expression ({ decls; expr; }): the value of the last expression statement
+            sts = [c for c in n["inner"][0].get("inner", [])]
+            if not sts: raise TranslateError("empty statement expression")
+            for st in sts[:-1]: self.stmt(st, env)
+            return self.rvalue(sts[-1], env)
         if k == "CompoundLiteralExpr" or k == "InitListExpr":
             raise TranslateError("compound literal / init list (vector construction is not element-wise)")
         raise TranslateError("unsupported expression kind " + k)
@@ -785,6 +812,8 @@ class Exec:
             callee = callee["inner"][0]
         if callee["kind"] != "DeclRefExpr": raise TranslateError("indirect call")
         nm = callee["referencedDecl"]["name"]
+        if nm == "clean" and getattr(self.tu, "cxx", False):
+            return Val(TVoid(), None)         # Crypto.h: template clean(T&) wipes a local before it goes out of scope
         args = [self.rvalue(a, env) for a in n["inner"][1:]]
         if nm in ("memcpy", "__builtin_memcpy", "memset", "__builtin_memset"):
             return self.mem_builtin(nm, args)
@@ -1218,6 +1247,20 @@ def translate(tu, ent, registry, sigs, lane=None, probe=False):
         env[nm] = args[-1]
     for p, a_ in zip(params, args):
         env[p["name"]] = a_
+    # C++ methods: the fields of `*this` that the method uses, as described in the manifest
+    for fld, spec in ent.get("this", {}).items():
+        if "bytes" in spec:            # a pointer field: the memory it points to becomes an object parameter
+            o = Obj(fld, spec["bytes"], None if spec.get("out") else var(fld, 8 * spec["bytes"]))
+            ex.param_objs[fld] = o
+            el = TInt(spec.get("elbits", 32), False)
+            env["this." + fld] = Val(TPtr(el), None, (o, 0))
+            if not spec.get("out"): sig.append((fld, 8 * spec["bytes"]))
+            objs.append(("obj", fld, o, 8 * spec["bytes"]))
+        elif "const" in spec:
+            env["this." + fld] = Val(TInt(spec.get("bits", 8), False), const(spec["const"], spec.get("bits", 8)))
+        else:
+            w_ = spec.get("bits", 8)
+            env["this." + fld] = Val(TInt(w_, False), var(fld, w_)); sig.append((fld, w_))
     outs = []     # (kind, name, E)
     piece = ent.get("piece")
     if piece is None:
@@ -1294,8 +1337,14 @@ def translate(tu, ent, registry, sigs, lane=None, probe=False):
         if wanted is None:
             wanted = sorted(avail)
         for nm in wanted:
+            if nm not in avail and nm.endswith("_0") and (nm[:-2] + "_win") in avail:
+                # the current element of a walking pointer's window (bytes [S, 2S) of the window object)
+                wobj = avail[nm[:-2] + "_win"][1]
+                S_ = wobj.size // 2
+                outs.append(("obj", nm, ex.atom(wobj.read(S_, S_, ex.W), "o")))
+                continue
             if nm not in avail:
-                raise TranslateError("piece output %s is not assigned in %s %r" % (nm, fname, piece))
+                raise TranslateError("piece output %s is not assigned in %s %r (assigned: %s)" % (nm, fname, piece, sorted(avail)))
             k2, slot = avail[nm]
             if k2 == "obj": outs.append(("obj", nm, ex.atom(slot.image(), "o")))
             else: outs.append(("val", nm, slot.e))
@@ -1416,6 +1465,9 @@ def main():
             try:
                 if key not in tus:
                     base = ["-std=c99", "-I" + os.path.join(a.repo, "include"), "-I" + os.path.join(a.repo, "src"), "-DRWEATHER_SKINNY_C_VERIF"]
+                    if ent["file"].endswith(".cpp"):
+                        adir = os.path.dirname(os.path.join(a.repo, ent["file"]))
+                        base = ["-std=gnu++11", "-I" + adir, "-I" + os.path.join(adir, "utility")]
                     tus[key] = TU(os.path.join(a.repo, ent["file"]), base + list(ent.get("flags", [])), cxx=ent["file"].endswith(".cpp"))
                     tus[key].userflags = list(ent.get("flags", []))
                 tu = tus[key]
